@@ -79,6 +79,8 @@ def gen_cases(tier, seed, gen, effort):
                 det["h"] = rnd.choice([1, "%a%", "z"])
         cfg = dict(base_cfg, orAsIn=rnd.random() < 0.4, inAllowWild=rnd.random() < 0.5, andAsIn=rnd.random() < 0.3)
         cases.append({"dets": {"sel": det}, "cond": rnd.choice(["sel", "not sel"]), "cfg": cfg, "pipe": gen_pipeline(rnd)})
+        if rnd.random() < 0.2:
+            cases[-1]["revars"] = True
     return cases, False
 
 
@@ -103,6 +105,17 @@ def run_impl(case):
                                             "detection": {**case["dets"], "condition": case["cond"]}}])
         pl = ProcessingPipeline.from_dict(pipeline_dict(case["pipe"]))
         b = qsyntax.make_backend(case["cfg"])(pl)
+        if case.get("revars"):
+            # the same pipeline and transformation objects converted the rule once with OTHER variable values: the second
+            # conversion must use the variables as they are now
+            real = dict(pl.vars)
+            pl.vars = {k: ["stale1", "stale2", "stale3"] for k in real}
+            try:
+                b.convert(SigmaCollection.from_dicts([{"title": "t", "logsource": {"category": "c"},
+                                                        "detection": {**case["dets"], "condition": case["cond"]}}]))
+            except Exception:
+                pass
+            pl.vars = real
         return {"outcome": "ok", "queries": b.convert(coll)}
     except NotImplementedError as e:
         return {"outcome": "unsupported", "msg": str(e)[:100]}
@@ -133,7 +146,7 @@ def make_request(case, impl, gen):
 
 def judge(case, impl, reply):
     io = impl["outcome"]
-    key = (case["dets"], case["cond"], case["pipe"])
+    key = (case["dets"], case["cond"], case["pipe"], case.get("revars"))
     text = repr(case["dets"])
     nt = "%" in text
     tags = [f"impl:{io.split(':')[0]}", f"items:{len(case['pipe']['items'])}"]
